@@ -96,6 +96,24 @@ func (e editSpec) apply(b []byte) []byte {
 		}
 	case "set":
 		b = []byte(e.Text)
+	case "cut-at-record": // keep the records that start before byte At (a download in progress)
+		cut := 0
+		for _, mark := range []string{"\nLOCUS ", "\n>"} {
+			from := 0
+			for {
+				i := bytes.Index(b[from:], []byte(mark))
+				if i < 0 {
+					break
+				}
+				if p := from + i + 1; p <= e.At && p > cut {
+					cut = p
+				}
+				from += i + 1
+			}
+		}
+		if cut > 0 {
+			b = b[:cut]
+		}
 	}
 	return b
 }
@@ -436,7 +454,12 @@ func (x *cliExec) run() {
 		st := sc.Steps[i]
 		switch {
 		case st.Edit != nil:
-			if d, ok := x.w.GetFile(st.Edit.File); ok {
+			if st.Edit.Edit.Op == "restore" {
+				// the file gets back the content the scenario started with
+				if f, ok := sc.Files[st.Edit.File]; ok {
+					x.w.PutFile(st.Edit.File, f.bytes())
+				}
+			} else if d, ok := x.w.GetFile(st.Edit.File); ok {
 				x.w.PutFile(st.Edit.File, st.Edit.Edit.apply(d))
 			}
 		case st.Disk != nil:
@@ -511,9 +534,20 @@ func (x *cliExec) runStep(i int, rs *runStep) {
 			break
 		}
 	}
+	// something else on the machine acts while the process runs: another
+	// program rewrites one of the user's files
+	x.w.OnCall = func(arg string) {
+		var ev editStep
+		if json.Unmarshal([]byte(arg), &ev) == nil {
+			if d, ok := x.w.GetFile(ev.File); ok {
+				x.w.PutFile(ev.File, ev.Edit.apply(append([]byte(nil), d...)))
+			}
+		}
+	}
 	core.Current = x.sc
 	core.Tick()
 	r := runGts(x.w, rs.Argv, spec)
+	x.w.OnCall = nil
 	real := obs{Status: r.Status, Stdout: r.Stdout, Files: userFiles(x.w), Killed: r.Killed, Panic: r.Panic}
 	info := &stepInfo{idx: i, run: rs, real: real, ref: ref, fired: r.Fired, trace: r.Trace, ops: r.Ops, refFiles: files, refStdin: stdin}
 	h := sha256.New()
